@@ -64,7 +64,7 @@ static Mode modeOf(const std::string & m)
 	else if(m == "c19") { r.pAct = 30; r.maxDepth = 2; r.wrap = true; r.structural = true; r.minOps = 30; r.maxOps = 70; r.nlMax = 2; }
 	else if(m == "c10") { r.pAct = 15; r.maxDepth = 2; r.structural = true; r.nlMax = 4; r.wrap = true; }
 	else if(m == "c08") { r.pAct = 45; r.maxDepth = 3; r.structural = true; r.minOps = 40; r.maxOps = 120; r.maxNodes = 250; r.nlMax = 3; }
-	else if(m == "all") { r.pAct = 30; r.maxDepth = 3; r.structural = true; r.wrap = true; r.nlMax = 3; }
+	else if(m == "all" || m == "c20") { r.pAct = 30; r.maxDepth = 3; r.structural = true; r.wrap = true; r.nlMax = 3; }
 	return r;
 }
 
@@ -152,8 +152,10 @@ struct CLCfg
 		~Store() { for(int i = 0; i < MAXL; ++i) destroy(i); }
 		L & at(int i) { return *reinterpret_cast<L *>(slots[i].buf); }
 		void prefill(int i, unsigned pat, Rng & rng) {
+			static const bool noPrefill = ctx().optInt("noprefill", 0) != 0; // memcheck runs: leave the storage undefined
+			if(noPrefill) { if(pat >= 4) rng.next(); return; }
 			if(pat < 4) memset(slots[i].buf, kPrefill[pat], sizeof(L));
-			else for(size_t k = 0; k < sizeof(L); ++k) slots[i].buf[k] = (unsigned char)rng.below(256);
+			else { Rng fill(rng.next()); for(size_t k = 0; k < sizeof(L); ++k) slots[i].buf[k] = (unsigned char)fill.below(256); } // one draw: the object size must not influence the program
 		}
 		void destroy(int i) { if(alive[i]) { at(i).~L(); alive[i] = false; } }
 		void init(int n, Rng & rng) { nl = n; for(int i = 0; i < n; ++i) { prefill(i, rng.below(5), rng); new (slots[i].buf) L(); alive[i] = true; } }
@@ -795,7 +797,7 @@ struct World : CallbackSink
 static uint64_t gTraceXor = 0;
 
 template <typename Cfg>
-static void runCfg(const Mode & mode, Rng & rng, uint64_t caseNo, int cfgIndex)
+static uint64_t runCfg(const Mode & mode, Rng & rng, uint64_t caseNo, int cfgIndex)
 {
 	ledger().resetCase();
 	const int nops = rng.range(mode.minOps, mode.maxOps);
@@ -822,6 +824,7 @@ static void runCfg(const Mode & mode, Rng & rng, uint64_t caseNo, int cfgIndex)
 	if(nontrivial) markNontrivial(f.h);
 	gTraceXor ^= mix(h, caseNo);
 	if(wantSample() && nontrivial) addSample("{\"case\":" + unum(caseNo) + ",\"history\":" + oplogJson(ctx().oplog, 60) + "}");
+	return h;
 }
 
 template <bool Enabled, typename Cfg>
@@ -840,17 +843,46 @@ typedef EDCfg<PolUserMap, true> Cfg6;
 typedef EDCfg<PolSingleOrdered, false> Cfg7;
 enum { NCFG = 8 };
 
+// C20: the SAME generated program under every member of a family that differs only in policies (threading, callback
+// storage); the observable trace (operations, results, calls with arguments) must be identical
+#ifndef VF_CFG_MASK
+#define VF_CFG_MASK 0xff
+#endif
+#if (VF_CFG_MASK >> 8) & 1
+struct PolCustomCbSpin { typedef TCallback Callback; typedef eventpp::GeneralThreading<eventpp::SpinLock> Threading; };
+typedef CLCfg<ProtoInt, eventpp::DefaultPolicies, false> Fam0;
+typedef CLCfg<ProtoInt, PolSingle, false> Fam1;
+typedef CLCfg<ProtoInt, PolSpin, false> Fam2;
+typedef CLCfg<ProtoInt, PolCustomCb, false> Fam3;
+typedef CLCfg<ProtoInt, PolCustomCbSpin, false> Fam4;
+static void runFamily(const Mode & mode, uint64_t caseNo)
+{
+	const uint64_t seed = ctx().curSeed;
+	uint64_t h[5];
+	{ Rng r(seed); h[0] = runCfg<Fam0>(mode, r, caseNo, 100); }
+	{ Rng r(seed); h[1] = runCfg<Fam1>(mode, r, caseNo, 101); }
+	{ Rng r(seed); h[2] = runCfg<Fam2>(mode, r, caseNo, 102); }
+	{ Rng r(seed); h[3] = runCfg<Fam3>(mode, r, caseNo, 103); }
+	{ Rng r(seed); h[4] = runCfg<Fam4>(mode, r, caseNo, 104); }
+	static const char * names[] = { "default(std::mutex,std::function)", "SingleThreading", "SpinLock", "custom-callback+SingleThreading", "custom-callback+SpinLock" };
+	for(int i = 1; i < 5 && ! caseHasViolation(); ++i)
+		if(h[i] != h[0]) violation(std::string("c20:trace-differs-between-policies:") + names[i], std::string("the same generated program produced a different observable trace under ") + names[i] + " than under " + names[0]);
+	count("family_programs");
+	count("family_runs", 5);
+}
+#else
+static void runFamily(const Mode &, uint64_t) { --ctx().casesRun; }
+#endif
+
 static void runCase(uint64_t caseNo, Rng & rng)
 {
 	static Mode mode = modeOf(ctx().mode);
+	if(ctx().mode == "c20") { runFamily(mode, caseNo); return; }
 	long long only = ctx().optInt("cfg", -1);
 	int cfg = only >= 0 ? (int)only : (int)(caseNo % NCFG);
 	// c20: the same program (same seed) under every configuration of its family is handled by the driver
 	// running this binary once per --opt cfg=N with the same seed; nothing special here.
 	// VF_CFG_MASK: build only a subset of the configurations (parallel compilation); other cases are skipped
-#ifndef VF_CFG_MASK
-#define VF_CFG_MASK 0xff
-#endif
 #define VF_CFG(n) case n: if((VF_CFG_MASK >> n) & 1) { runCfgIf<((VF_CFG_MASK >> n) & 1) != 0, Cfg##n>(mode, rng, caseNo, n); } else { skipCase(); } break;
 	switch(cfg) {
 	VF_CFG(0) VF_CFG(1) VF_CFG(2) VF_CFG(3) VF_CFG(4) VF_CFG(5) VF_CFG(6) VF_CFG(7)
